@@ -221,6 +221,17 @@ def worker(args):
         mir, key = common.load_mir('std'); tt = common.type_table()
         J = JitLoop(mir, tt, timeout); Vf = verif.Verif(mir, tt, timeout); pr = obl.Prover(timeout, common.seed()); cands = []
         alen = Vf.a_len()
+        # special jump targets registered by set_anchor (epilogue): what resolve_jumps looks up before indexing pc_locs
+        anchors = set()
+        try:
+            st_e, P_e = J.step(0x95); st_e.pc = [P_e.pc == J.prog_len / 8, ULE(J.prog_len, 8000000), J.prog_len % 8 == 0, J.nslots == J.prog_len / 8 + 1, ULE(J.jm_offset(), 1 << 32), Or(Not(J.jm_we()), UGE(J.jm_len(), J.jm_offset() + 64)), ULE(J.jm_len(), 1 << 40)]
+            st_e.aux.pop('overlay', None)
+            for q in J.eng.explore(st_e, cuts={(J.f.name, J.head)}):
+                for e in q.st.events:
+                    if e[0] == 'anchor':
+                        v = simplify(e[1][0].t)
+                        if is_bv_value(v): anchors.add(v.as_long())
+        except Unsupported as e: pr.out['errors'].append(f'anchors: {e}')
         for opc in opcodes:
             name = spec.opname(opc)
             try:
@@ -261,6 +272,10 @@ def worker(args):
                             else:
                                 r, m = pr.prove(f'{name}:fixup-inside-emitted-code', pc_, And(UGE(jl, off0), ULE(jl + 4, off1)), sample=f'{name}: recorded jump fix-up location + 4 <= code offset')
                                 ok = r != 'sat'
+                            # resolve_jumps: the target is a registered anchor or a valid index into pc_locs (n+1 entries)
+                            tg = e[1].f[1].t
+                            r, m = pr.prove(f'{name}:jump-target-resolvable', pc_, Or(*([tg == a for a in sorted(anchors)] + [And(tg >= 0, ULT(tg, n + 1))])), sample=f'{name}: the recorded jump target is an anchor or an index < n+1, so resolve_jumps cannot index out of pc_locs')
+                            if r == 'sat': cands.append(dict(role=f'jit-compile/{name}/jump-target-not-resolvable', detail='resolve_jumps would index pc_locs out of bounds for this jump', model=dict(opc=opc, pc=obl.mval(m, P.pc), off=obl.mval(m, P.off), imm=obl.mval(m, P.imm), regbyte=obl.mval(m, P.regbyte), n=obl.mval(m, n)), friendly=True))
                             if not ok: cands.append(dict(role=f'jit-compile/{name}/fixup-outside-code', detail='jump fix-up location outside the emitted code', model=dict(opc=opc), friendly=True))
                     # classify the path by the write flag (literal in the path condition, else by query)
                     we = J.jm_we(); nwe = Not(we)
